@@ -1,0 +1,204 @@
+//go:build verif
+
+package lsm
+
+import (
+	"fmt"
+	"math"
+	"time"
+
+	"github.com/feichai0017/NoKV/kv"
+	"github.com/feichai0017/NoKV/lsm/compact"
+	"github.com/feichai0017/NoKV/utils"
+)
+
+// Verification accessors (build tag "verif" only). They call existing
+// internals on demand and never run unless the harness calls them.
+
+// VerifSetCompactionPaused stops/resumes the background compaction cycles so
+// that explicit VerifCompact calls are the only compactions.
+func (lsm *LSM) VerifSetCompactionPaused(paused bool) {
+	if lsm == nil || lsm.levels == nil || lsm.levels.compaction == nil {
+		return
+	}
+	lsm.levels.compaction.VerifSetPaused(paused)
+}
+
+// VerifCompact runs one compaction of the given kind through the regular
+// doCompact path. Kinds: "l0" (L0 -> base level ingest move, falling back to
+// L0->L0 exactly as the background worker #0 does), "l0-to-l0" (forces the
+// L0->L0 planner by passing an adjusted score in (0,1)), "ingest-drain",
+// "ingest-merge" (level = the level holding the ingest buffer), "level"
+// (regular level n -> n+1 / max-level compaction).
+func (lsm *LSM) VerifCompact(kind string, level int) error {
+	lm := lsm.levels
+	if lm == nil {
+		return fmt.Errorf("no level manager")
+	}
+	p := compact.Priority{Level: level, Score: 1, Adjusted: 1, Target: lm.levelTargets(), StatsTag: "verif"}
+	switch kind {
+	case "l0":
+		p.Level = 0
+	case "l0-to-l0":
+		p.Level = 0
+		p.Adjusted = 0.5
+	case "ingest-drain":
+		p.IngestMode = compact.IngestDrain
+	case "ingest-merge":
+		p.IngestMode = compact.IngestKeep
+	case "level":
+	default:
+		return fmt.Errorf("unknown compaction kind %q", kind)
+	}
+	err := lm.doCompact(0, p)
+	lm.AdjustThrottle()
+	return err
+}
+
+// VerifBackdateL0 moves the in-memory creation time of every L0 table back by
+// d so that the L0->L0 planner's age gate (10s) can be passed without sleeping.
+func (lsm *LSM) VerifBackdateL0(d time.Duration) {
+	lh := lsm.levels.levels[0]
+	lh.Lock()
+	for _, t := range lh.tables {
+		if t != nil && !t.createdAt.IsZero() {
+			t.createdAt = t.createdAt.Add(-d)
+		}
+	}
+	lh.Unlock()
+}
+
+// VerifWaitFlush blocks until no immutable memtable is pending.
+func (lsm *LSM) VerifWaitFlush(timeout time.Duration) bool {
+	deadline := time.Now().Add(timeout)
+	for {
+		lsm.lock.RLock()
+		n := len(lsm.immutables)
+		lsm.lock.RUnlock()
+		if n == 0 {
+			return true
+		}
+		if time.Now().After(deadline) {
+			return false
+		}
+		time.Sleep(time.Millisecond)
+	}
+}
+
+// VerifTableInfo describes one table of the layout.
+type VerifTableInfo struct {
+	Fid    uint64
+	Level  int
+	Ingest bool
+	Shard  int
+	MinKey []byte
+	MaxKey []byte
+	MaxVer uint64
+}
+
+// VerifLayoutInfo is a snapshot of the tree shape.
+type VerifLayoutInfo struct {
+	Immutables int
+	BaseLevel  int
+	Tables     []VerifTableInfo
+}
+
+// VerifLayout returns the current tree shape.
+func (lsm *LSM) VerifLayout() VerifLayoutInfo {
+	var out VerifLayoutInfo
+	lsm.lock.RLock()
+	out.Immutables = len(lsm.immutables)
+	lsm.lock.RUnlock()
+	out.BaseLevel = lsm.levels.levelTargets().BaseLevel
+	for _, lh := range lsm.levels.levels {
+		lh.RLock()
+		for _, t := range lh.tables {
+			out.Tables = append(out.Tables, VerifTableInfo{Fid: t.fid, Level: lh.levelNum, MinKey: t.MinKey(), MaxKey: t.MaxKey(), MaxVer: t.MaxVersionVal()})
+		}
+		for si, sh := range lh.ingest.shards {
+			for _, t := range sh.tables {
+				out.Tables = append(out.Tables, VerifTableInfo{Fid: t.fid, Level: lh.levelNum, Ingest: true, Shard: si, MinKey: t.MinKey(), MaxKey: t.MaxKey(), MaxVer: t.MaxVersionVal()})
+			}
+		}
+		lh.RUnlock()
+	}
+	return out
+}
+
+// VerifSource is one place holding versions of a user key.
+type VerifSource struct {
+	Kind     string // "mem", "imm", "l0", "ingest", "level"
+	Level    int
+	Fid      uint64
+	Versions []uint64
+}
+
+// VerifKeySources lists, in the engine's own lookup order, every source that
+// holds at least one entry for the user key of the given internal key.
+func (lsm *LSM) VerifKeySources(internalKey []byte) []VerifSource {
+	seek := kv.KeyWithTs(kv.ParseKey(internalKey), math.MaxUint64)
+	collect := func(it utils.Iterator) []uint64 {
+		if it == nil {
+			return nil
+		}
+		defer func() { _ = it.Close() }()
+		var vs []uint64
+		for it.Seek(seek); it.Valid(); it.Next() {
+			k := it.Item().Entry().Key
+			if !kv.SameKey(k, seek) {
+				break
+			}
+			vs = append(vs, kv.ParseTs(k))
+		}
+		return vs
+	}
+	var out []VerifSource
+	tables, release := lsm.GetMemTables()
+	for i, mt := range tables {
+		if mt == nil {
+			continue
+		}
+		if vs := collect(mt.NewIterator(&utils.Options{IsAsc: true})); len(vs) > 0 {
+			kind := "imm"
+			if i == 0 {
+				kind = "mem"
+			}
+			out = append(out, VerifSource{Kind: kind, Fid: uint64(mt.segmentID), Versions: vs})
+		}
+	}
+	if release != nil {
+		release()
+	}
+	for _, lh := range lsm.levels.levels {
+		lh.RLock()
+		var ingest, main []*table
+		for _, sh := range lh.ingest.shards {
+			ingest = append(ingest, sh.tables...)
+		}
+		main = append(main, lh.tables...)
+		for _, t := range ingest {
+			t.IncrRef()
+		}
+		for _, t := range main {
+			t.IncrRef()
+		}
+		lh.RUnlock()
+		for _, t := range ingest {
+			if vs := collect(t.NewIterator(&utils.Options{IsAsc: true})); len(vs) > 0 {
+				out = append(out, VerifSource{Kind: "ingest", Level: lh.levelNum, Fid: t.fid, Versions: vs})
+			}
+			_ = t.DecrRef()
+		}
+		for _, t := range main {
+			if vs := collect(t.NewIterator(&utils.Options{IsAsc: true})); len(vs) > 0 {
+				kind := "level"
+				if lh.levelNum == 0 {
+					kind = "l0"
+				}
+				out = append(out, VerifSource{Kind: kind, Level: lh.levelNum, Fid: t.fid, Versions: vs})
+			}
+			_ = t.DecrRef()
+		}
+	}
+	return out
+}
